@@ -50,10 +50,16 @@ Print Assumptions C15_patch_program_rfc_partial.
 Theorem C15_patch_single_op_lenient : forall fo t o, rfc_kind (p_op o) -> klidx_inv t -> op_good o ->
   match rfc_op lenient (f_eq fo) (doc_val t) (sop_of o) with
   | Some d' => fst (apply_op fo t o) = RcOk /\ doc_val (snd (apply_op fo t o)) = d' /\ klidx_inv (snd (apply_op fo t o))
-  | None => fst (apply_op fo t o) <> RcOk
+  | None => fst (apply_op fo t o) <> RcOk /\ klidx_inv (snd (apply_op fo t o))
   end.
 Proof. exact apply_op_lenient. Qed.
 Print Assumptions C15_patch_single_op_lenient.
+
+(* "cached index = position" (and cached key length = length of the name) holds after every rfc6902 program,
+   successful or not.  (False of the unfixed code: [1,2,3,4] with remove /0 leaves the indices 1,2,3.) *)
+Theorem C15_klidx_inv : forall fo l t, ops_ok l -> klidx_inv t -> klidx_inv (snd (apply_ops fo t l)).
+Proof. exact klidx_inv_preserved. Qed.
+Print Assumptions C15_klidx_inv.
 
 Theorem C15_strict_implies_lenient : forall feq d o d', no_root_alias o ->
   rfc_op strict feq d o = Some d' -> rfc_op lenient feq d o = Some d'.
